@@ -26,5 +26,15 @@ BDivSmall(a, d) == LET q == DivFrom(a, d, Len(a), 0) IN Trim([i \in 1..Len(q) |-
 RECURSIVE BLessFrom(_, _, _)
 BLessFrom(a, b, i) == IF i = 0 THEN FALSE ELSE IF a[i] # b[i] THEN a[i] < b[i] ELSE BLessFrom(a, b, i - 1)
 BLess(a, b) == LET x == Trim(a)  y == Trim(b) IN IF Len(x) # Len(y) THEN Len(x) < Len(y) ELSE BLessFrom(x, y, Len(x))
+\* big x big: shifted partial products, one per limb of b
+BShift(a, k) == IF a = <<>> THEN <<>> ELSE [i \in 1..k |-> 0] \o a
+RECURSIVE MulBigFrom(_, _, _)
+MulBigFrom(a, b, j) == IF j > Len(b) THEN <<>> ELSE BAdd(BShift(BMulSmall(a, b[j]), j - 1), MulBigFrom(a, b, j + 1))
+BMul(a, b) == Trim(MulBigFrom(a, b, 1))
+\* a - m for 0 <= m < Base and a >= m
+RECURSIVE SubFrom(_, _, _)
+SubFrom(a, i, borrow) == IF i > Len(a) THEN <<>>
+                         ELSE LET d == a[i] - borrow IN IF d < 0 THEN <<d + Base>> \o SubFrom(a, i + 1, 1) ELSE <<d>> \o SubFrom(a, i + 1, 0)
+BSubSmall(a, m) == Trim(SubFrom(a, 1, m))
 Two64 == <<1616, 955, 737, 4407, 1844>>                    \* 18446744073709551616
 =============================================================================
